@@ -39,6 +39,17 @@ INFO = {
  "C17-b": ("eulerAngles 'normalises' the middle angle to [-pi/2, pi/2]", "proper-Euler conventions (i1 == i3) and a rotation with |a2| > pi/2"),
  "C19-b": ("Bundle dr_exp_sparse / dr_expinv_sparse skip commutative parts", "mixed Bundle (commutative and non-commutative parts) and a host matrix whose stored values on those diagonals are not already 1"),
  "C20-b": ("integrate_absolute_polynomial: stable root formula with sgn(B) = 0 for B = 0", "quadratic with B == 0 exactly, A C < 0 and a root inside the interval"),
+ "C02-b": ("SE2 exp rewritten to the textbook sign convention, series branch not updated", "SE2 (also as a Bundle part), rotation angle inside the series branch 1e-9 < |th| < 1e-4, non-zero translation"),
+ "C04-b": ("SE3 calculate_q: fast path for v.w == 0 with a factor-2 slip", "SE3 / Galilei tangent whose translation-like part is exactly orthogonal to the rotation vector (axis-aligned, planar motion), |w| > 1e-3"),
+ "C18-b": ("fit_bspline: MinimizeOptions made static (shared trust-region state)", ">= 2 calls of the same fit_bspline instantiation in one process (sequentially or in parallel) on data that does not fit trivially"),
+ "C01-c": ("operator*= composes into its own storage through a view of the left operand", "left operand is a Map (any group but SO3), or g *= g on SO2 / C1 / SE2"),
+ "C03-c": ("Bundle ad skips non-commutative parts whose tangent segment isZero() (fuzzy, 1e-12)", "Bundle with a non-commutative part whose tangent coefficients all lie in (0, 1e-12]"),
+ "C06-c": ("homogeneous-Bundle fast path steps through the group element by Dof in Ad", "Bundle of >= 2 members of one non-commutative type, operation Ad"),
+ "C07-c": ("SubManifold rplus/rminus step over a fixed dimension with if instead of while", "fixed_dims with two or more adjacent indices followed by a free index"),
+ "C12-c": ("integrate_absolute_polynomial: unsorted roots in a 'nearly linear' branch", "cubic segment whose velocity component is nearly but not exactly linear (|A| tiny), A and B of equal sign, zero crossing inside the range (arclength)"),
+ "C16-c": ("narrowing cast<float>() composes with Identity to re-normalise", "double -> float cast of a group with a rotation part holding non-canonical coefficient contents"),
+ "C17-c": ("Galilei log fast path for tau == 0 uses the right instead of the left inverse Jacobian", "Galilei element with time component exactly 0 and a finite rotation"),
+ "C20-c": ("binary_interval_search converts the query to the range's value type before comparing", "query type different from the range's value type and a conversion that changes the value (int range, negative half-integer query); some inputs do not terminate"),
  "C16-b": ("SE_K_3::r3(int k) mutable accessor starts at K*k instead of 3*k", "SE_K_3 with K not in {1,3}, mutable value or Map, run-time index k >= 1"),
 }
 rows = []
